@@ -52,6 +52,7 @@ class HttpWorld:
             self.root._tasks = ghost.OrderedTasks()
         self.server = StubServer().register(self.root)
         self.http = HTTP(self.server, channel='web').register(self.server)
+        self.server.http = self.http         # (what circuits.web.Server has; used when display_banner is switched on)
         if dispatcher:
             self.dispatcher = Dispatcher(channel='web').register(self.server)
         self.probe = Probe()
